@@ -2013,3 +2013,48 @@ def scaled_spec(spec: LexSpec, rule: str, cap: int, k: int) -> Optional[LexSpec]
     if new == src:
         return None
     return respec(spec, spec.pattern.replace(src, new))
+
+
+def ob_blank_before(sess: Session, name: str, family: str, N: int, ws_kind: str, layout: str, ref: str, delims: str,
+                    not_in: Sequence[str] = (), max_run: int = 3, timeout: Optional[float] = None,
+                    regions: Sequence[Region] = ()) -> Obligation:
+    """forall w in layout{1,max_run}, s in L(ref) (in none of `not_in`), d in delims or end:
+         lex1(w.s.d.rest) = (ws_kind, |w|)
+    i.e. a blank run in front of such a lexeme is a white-space token of exactly that run: no keyword rule that owns its
+    surrounding white space may bite into the lexeme (`, order_id` must not become `,` OR `der_id`).  Because lex1 is
+    stateless this is the step after `,` / `(` / `:` + blank; the step on s itself is the 'accept' obligation."""
+
+    def build(txt: SymText, excl: List[Region]) -> Query:
+        eng = txt.eng
+        lay = eng.alphabet.idx(layout)
+        dl = eng.alphabet.idx(delims)
+        A, S = pos_var("A"), pos_var("S")
+        k, e = txt.lex1()
+        alts = []
+        for a in range(1, max_run + 1):
+            if a + 1 > txt.N:
+                break
+            cs = [txt.L > a] + [txt.incls(i, lay) for i in range(a)] + [z3.Not(txt.incls(a, lay))]
+            cs.append(txt.member(eng.ref(ref), S, start=a))
+            cs += [z3.Not(txt.member(eng.ref(p), S, start=a)) for p in not_in]
+            alts.append(z3.And(A == a, S > a, *cs))
+        pre = [z3.Or(alts), S <= txt.L, txt.delim_after(S, dl, lo=2)] + [z3.Not(txt.member(eng.ref(r.pattern, r.flags), S)) for r in excl]
+        neg = [z3.Not(z3.And(k == eng.kind_index(ws_kind), e == A))]
+        return Query(name, pre, neg, {"t": txt}, {"A": A, "S": S}, minimise=txt.L, family=family)
+
+    def replay(w: dict) -> dict:
+        t = w["texts"]["t"]
+        text, a, S = t["text"], w["ints"]["A"], w["ints"]["S"]
+        ok, real, why = sess.check_lex1(t)
+        if not ok:
+            return {"consistent": False, "why": why}
+        s = text[a:S]
+        if (not all(ch in layout for ch in text[:a]) or re.fullmatch(ref, s, REF_FLAGS) is None
+                or any(re.fullmatch(p, s, REF_FLAGS) for p in not_in) or not (S == len(text) or text[S] in delims)):
+            return {"consistent": False, "why": f"witness {text!r} is not blank-run . lexeme . delimiter"}
+        got = f"{real[0]} spanning {text[:max(real[1], 0)]!r}" if real[1] >= 0 else "a tokenizing ERROR"
+        return {"consistent": True, "reproduced": list(real) != [ws_kind, a], "lexeme": text[:S], "text": text, "prev": t["prev"],
+                "expected": [ws_kind, a], "real": list(real),
+                "what": f"{text!r}: the blank run before {s!r} must be one {ws_kind} token of {a} character(s); the lexer produces {got}"}
+
+    return Obligation(name, family, N, build, replay, list(regions), timeout=timeout)
